@@ -382,6 +382,47 @@ func check(c Case) error {
 				return err
 			}
 		}
+		if pi == 0 && n >= 2 {
+			// Files saved under one relative name from different working directories (a generator that walks the
+			// package directories): each lands where its Save was called, none touches another's
+			if err := func() error {
+				back, err := os.Getwd()
+				if err != nil {
+					return nil
+				}
+				defer os.Chdir(back)
+				base, err := os.MkdirTemp("", "c09rel")
+				if err != nil {
+					return nil
+				}
+				defer os.RemoveAll(base)
+				js := fresh(false)
+				var dirs []string
+				for i := 0; i < n && i < 3; i++ {
+					d := filepath.Join(base, fmt.Sprintf("pkg%d", i))
+					if os.MkdirAll(d, 0o755) != nil || os.Chdir(d) != nil {
+						return nil
+					}
+					dirs = append(dirs, d)
+					f := (&recipe.Builder{}).File(js[i])
+					_ = hx.Safe(func() error { _ = f.Save("zz_generated.go"); return nil })
+				}
+				for i, d := range dirs {
+					got := "SAVED FILE UNREADABLE"
+					if b, err := os.ReadFile(filepath.Join(d, "zz_generated.go")); err == nil {
+						got = "OK:" + string(b)
+					} else if strings.HasPrefix(ref[i], "ERROR") {
+						continue // the File does not render: nothing to save
+					}
+					if err := cmp("Files saved under one relative name from different working directories", i, got); err != nil {
+						return err
+					}
+				}
+				return nil
+			}(); err != nil {
+				return err
+			}
+		}
 		// alternate build / render
 		jobs = fresh(false)
 		for _, i := range perm {
